@@ -10,6 +10,7 @@ EXTENDS HclExpr, SequencesExt
 
 CONSTANTS MaxD,        \* nesting depth of generated ASTs
           Level2,      \* which wrapper families are allowed above depth 1: "all" | "core" | "heredoc"
+          NeedPred,    \* FALSE: do not compute the denotation (for replayers that only need the program)
           NParts, Part \* the leaves are split into NParts classes; this run starts from class Part (0-based)
                        \* (several TLC processes enumerate disjoint parts of the state space in parallel)
 
@@ -190,7 +191,7 @@ HLeaves == {NTpl(k, ls) : k \in {"h", "hf"}, ls \in UNION {HLines(x) : x \in {NV
 WHere(x) == {NTuple(<<x>>), NTuple(<<NVar("s"), x>>), NCall("upper", FALSE, <<x>>), NCall("cat", FALSE, <<x, NVar("s")>>),
              NObject(<<NKeyId("a"), x>>), NCond(NVar("b"), x, NVar("s")), NBin("==", x, NVar("s")), NIndex(NVar("m"), x)}
 
-Result(x) == Eval(x, Scope)
+Result(x) == IF NeedPred THEN Eval(x, Scope) ELSE ROom
 
 LeafSeq == SetToSeq(IF Level2 = "heredoc" THEN HLeaves ELSE Leaves)
 Init == /\ \E i \in 1..Len(LeafSeq) : i % NParts = Part /\ e = LeafSeq[i]
